@@ -18,13 +18,13 @@ N = 4
 
 
 # ------------------------------------------------------------------ argument construction
-def _base_value(role, n, batch, dtype, seed):
+def _base_value(role, n, batch, dtype, seed, shape=None):
     g = torch.Generator().manual_seed(seed)
     r = lambda *s: torch.randint(-3, 4, s, generator=g).to(dtype)
     if role in ("rhs", "rhs2"):
-        return r(*batch, n, 2)
+        return r(*batch, n if shape is None else shape[-1], 2)          # (rectangular operators: as many rows as the operator has columns)
     if role == "lhs":
-        return r(*batch, 2, n)
+        return r(*batch, 2, n if shape is None else shape[-2])
     if role in ("init", "test", "lowrank"):
         return r(*batch, n, 1) + 0.5
     if role == "guess":
@@ -217,7 +217,7 @@ def run_case(case):
             cells.add("operator tensor #%d" % i, t)
     args = {}
     for role, lay in zip(case["roles"], case["layouts"]):
-        x = _base_value(role, N, batch, dtype, case["seed"] + len(args))
+        x = _base_value(role, N, batch, dtype, case["seed"] + len(args), None if op is None else tuple(op.shape))
         if case["op"] == "psd_safe_cholesky_jitter":
             x = torch.ones(*batch, N, N, dtype=dtype)      # singular PSD: forces the jitter path (which works on a clone)
         t, bases = _layout(x, lay)
